@@ -383,6 +383,18 @@ def main(argv):
     # change at every height and rounds fail: what is committed carries a >2/3 certificate of the set the chain prescribes
     # (Monitors/MirrorM.v c01_obs_ok) and every threshold is read from a summary recomputed from the view's own set
     # (c06_obs_ok). The engines of the scenarios above keep one validator set; this run covers the changing ones.
+    # the run guard "finalize only with a held precommit quorum for exactly that block" on the real state machine: the
+    # scripted histories of Model/SMScenarios.v (late headers in commit wait, stale views, restarts) judged by the Coq
+    # monitor c08_finalize (every finalize request is for the most voted precommit block of the event's view, with quorum)
+    if not c.replay:
+        import sm_common as S
+        tok_sm, binary_sm = S.prepare(c)
+        if binary_sm is not None:
+            keep = dict(c.coverage)
+            S.run_scenarios(c, binary_sm, "c03sm", ["c08_finalize"], lambda name, evs, fl: name)
+            sc = c.coverage.get("scripted_histories")
+            c.coverage.update(keep)
+            c.coverage["state_machine_scripted_histories"] = sc
     if not c.replay or "batch_seed" in json.load(open(c.replay)):
         import mirrorlib
         mirrorlib.mirror_check(c, "C03", ["c01", "c06"], "C03 composition hypotheses along mirror histories", quick=(24, 40),
